@@ -349,3 +349,140 @@ func init() {
 		return 0
 	}
 }
+
+// c13MatrixCases: every codec annotation on every cardinality (singular, proto3 optional, repeated, map value,
+// oneof member). Definitions the plugins refuse are outside the property and skipped by the family runner.
+func c13MatrixCases() []buildCase {
+	type anno struct {
+		name string
+		mk   func() M // the annotated field (singular form), named "v"
+		pre  func(f M) // extra declarations
+	}
+	ts := ".google.protobuf.Timestamp"
+	annos := []anno{
+		{"int64 NUMBER", func() M { return withOpt(field("v", "int64"), "sebuf.http.int64_encoding", "INT64_ENCODING_NUMBER") }, nil},
+		{"uint64 NUMBER", func() M { return withOpt(field("v", "uint64"), "sebuf.http.int64_encoding", "INT64_ENCODING_NUMBER") }, nil},
+		{"sfixed64 NUMBER", func() M { return withOpt(field("v", "sfixed64"), "sebuf.http.int64_encoding", "INT64_ENCODING_NUMBER") }, nil},
+		{"int64 STRING", func() M { return withOpt(field("v", "int64"), "sebuf.http.int64_encoding", "INT64_ENCODING_STRING") }, nil},
+		{"bytes HEX", func() M { return withOpt(field("v", "bytes"), "sebuf.http.bytes_encoding", "BYTES_ENCODING_HEX") }, nil},
+		{"bytes BASE64_RAW", func() M { return withOpt(field("v", "bytes"), "sebuf.http.bytes_encoding", "BYTES_ENCODING_BASE64_RAW") }, nil},
+		{"timestamp UNIX_SECONDS", func() M { return withOpt(msgField("v", ts), "sebuf.http.timestamp_format", "TIMESTAMP_FORMAT_UNIX_SECONDS") }, nil},
+		{"timestamp DATE", func() M { return withOpt(msgField("v", ts), "sebuf.http.timestamp_format", "TIMESTAMP_FORMAT_DATE") }, nil},
+		{"enum NUMBER", func() M { return withOpt(enumField("v", ".t.v1.Plain"), "sebuf.http.enum_encoding", "ENUM_ENCODING_NUMBER") }, func(f M) {
+			addEnum(f, M{"name": "Plain", "value": []any{M{"name": "PLAIN_UNSPECIFIED", "number": 0}, M{"name": "PLAIN_A", "number": 1}}})
+		}},
+		{"enum custom values", func() M { return enumField("v", ".t.v1.Color") }, func(f M) {
+			addEnum(f, M{"name": "Color", "value": []any{M{"name": "COLOR_UNSPECIFIED", "number": 0}, M{"name": "COLOR_RED", "number": 1, "options": M{"[sebuf.http.enum_value]": "red"}}}})
+		}},
+		{"empty_behavior NULL", func() M { return withOpt(msgField("v", ".t.v1.Meta"), "sebuf.http.empty_behavior", "EMPTY_BEHAVIOR_NULL") }, func(f M) {
+			addMessage(f, message("Meta", field("k", "string")))
+		}},
+		{"empty_behavior OMIT", func() M { return withOpt(msgField("v", ".t.v1.Meta"), "sebuf.http.empty_behavior", "EMPTY_BEHAVIOR_OMIT") }, func(f M) {
+			addMessage(f, message("Meta", field("k", "string")))
+		}},
+		{"flatten", func() M { return withOpt(withOpt(msgField("v", ".t.v1.Meta"), "sebuf.http.flatten", true), "sebuf.http.flatten_prefix", "m_") }, func(f M) {
+			addMessage(f, message("Meta", field("k", "string")))
+		}},
+		{"nullable", func() M { return withOpt(field("v", "string"), "sebuf.http.nullable", true) }, nil},
+	}
+	var cases []buildCase
+	for _, a := range annos {
+		for _, card := range []string{"singular", "optional", "repeated", "map value", "oneof member"} {
+			a, card := a, card
+			cases = append(cases, buildCase{Name: "matrix: " + a.name + " / " + card, Build: func() *Schema {
+				f := protoFile("t/v1/t.proto", "t.v1", "example.com/t/v1;tv1")
+				if a.pre != nil {
+					a.pre(f)
+				}
+				w := message("W", field("label", "string"))
+				v := a.mk()
+				v["number"] = 2
+				switch card {
+				case "singular":
+					w["field"] = append(w["field"].([]any), v)
+				case "optional":
+					w["field"] = append(w["field"].([]any), optionalField(v, 0))
+					w["oneof_decl"] = []any{M{"name": "_v"}}
+				case "repeated":
+					w["field"] = append(w["field"].([]any), repeated(v))
+				case "map value":
+					// protoc puts the options of `map<string, T> v = 2 [...]` on the map field, not on the entry's value field
+					opts := v["options"]
+					delete(v, "options")
+					addMapField("t.v1", w, "v", v, 2)
+					if opts != nil {
+						fs := w["field"].([]any)
+						fs[len(fs)-1].(M)["options"] = opts
+					}
+				case "oneof member":
+					v["oneof_index"] = 0
+					o := field("other", "string")
+					o["number"] = 3
+					o["oneof_index"] = 0
+					w["field"] = append(w["field"].([]any), v, o)
+					w["oneof_decl"] = []any{M{"name": "pick"}}
+				}
+				addMessage(f, w)
+				addMessage(f, message("Req", field("id", "string")))
+				addService(f, service("S", method("Get", ".t.v1.Req", ".t.v1.W")))
+				return &Schema{Files: []map[string]any{f}, Generate: []string{"t/v1/t.proto"}}
+			}})
+		}
+	}
+	return cases
+}
+
+// matrixRoot: the root cause under which a failing matrix member is recorded (annotation family + cardinality).
+func matrixRoot(caseName string) string {
+	n := strings.TrimPrefix(caseName, "matrix: ")
+	parts := strings.SplitN(n, " / ", 2)
+	if len(parts) != 2 {
+		return n
+	}
+	fam := strings.Fields(parts[0])[0]
+	if fam == "uint64" || fam == "sfixed64" {
+		fam = "int64"
+	}
+	if parts[1] == "oneof member" {
+		return "matrix:codec annotation on a oneof member"
+	}
+	return "matrix:" + fam + " annotation on " + parts[1] + " field"
+}
+
+func init() {
+	boundedChecks["c13-matrix"] = func(w *World, seed int64) map[string]any {
+		runs, probs, err := runBuildFamily("c13m", c13MatrixCases(), [][]string{{"protoc-gen-go-http"}, {"protoc-gen-go-client"}, {"protoc-gen-go-http", "protoc-gen-go-client"}}, nil)
+		out := map[string]any{"name": "c13-matrix", "bounded": true, "bound": fmt.Sprintf("%d definitions (14 codec annotations x 5 cardinalities) x {go-http, go-client, both}: go build + go vet", len(c13MatrixCases())), "packages": runs}
+		if err != nil {
+			out["status"] = "error: " + err.Error()
+			return out
+		}
+		by := map[string][]string{}
+		for _, p := range probs {
+			r := matrixRoot(p.Case)
+			if len(by[r]) < 4 {
+				by[r] = append(by[r], p.Case+" ["+p.Plugins+"] "+p.Stage+": "+firstLines(p.Detail, 2))
+			}
+		}
+		var ks []string
+		for k := range by {
+			ks = append(ks, k)
+		}
+		sort.Strings(ks)
+		var fails []map[string]any
+		for _, k := range ks {
+			fails = append(fails, map[string]any{"name": "C13.family." + k, "case": k, "observed": strings.Join(by[k], " || "), "parameter": ""})
+		}
+		out["failures"] = fails
+		out["status"] = "ran"
+		return out
+	}
+	debugCmds["c13matrix"] = func(args []string) int {
+		runs, probs, err := runBuildFamily("c13m", c13MatrixCases(), [][]string{{"protoc-gen-go-http"}, {"protoc-gen-go-client"}}, nil)
+		fmt.Println("runs:", runs, "err:", err)
+		for _, p := range probs {
+			fmt.Printf("%-14s %-50s %-12s %s: %s\n", p.Class, p.Case, p.Plugins, p.Stage, strings.ReplaceAll(firstLines(p.Detail, 2), "\n", " | "))
+		}
+		return 0
+	}
+}
